@@ -41,7 +41,7 @@ CLAIMED['C13'] = {
             'names = reader names, no persisted field of a parsed element is overwritten with a value not derived from the '
             'input before it is stored, the coordinate writer replaces a value by a sentinel only on a non-finite edge, and must-pass-through: every Ok exit of the Tds deserialiser lies behind the '
             'success edges of the neighbour / incident-cell rebuild and of a call covering all Level-2 and Level-1 '
-            'validators; a fixed-arity sequence reader refuses input that ends early; the Vertex reader refuses every non-finite coordinate. Decides the "nothing silently dropped" and "inconsistent input is rejected" clauses, not '
+            'validators; a fixed-arity sequence reader refuses input that ends early; the Vertex reader refuses every non-finite coordinate. the refusals a reader decides itself stay within a reviewed table; hand-written map visitors read their keys as owned values (so non-borrowing deserialisers work). Decides the "nothing silently dropped" and "inconsistent input is rejected" clauses, not '
             'round-trip equality.',
     'note': 'Trusted: rustc MIR; serde derive/expansion emits serialize_field calls with literal names; slotmap '
             'serde for key gaps. Skip table with reasons in engine/rules/c13.py.',
